@@ -88,13 +88,17 @@ PItems(p, j, st, X, items, neg) ==
               IF sb.v # "ok" THEN sb
               ELSE IF At(p, sb.i) # 93 THEN Syn
               ELSE Close(<<sb.cls>>, sb.i + 1)
-  ELSE IF c = 45 /\ At(p, j + 1) = 45 THEN Uns                    \* two adjacent unescaped hyphens
+  ELSE IF c = 45 /\ At(p, j + 1) = 45 /\ At(p, j + 2) = 91         \* '--[' : a literal hyphen ends the positive group,
+       THEN PItems(p, j + 1, st, X, Append(items, [t |-> "c", c |-> 45]), neg)   \*   then a subtraction follows
+  ELSE IF c = 45 /\ At(p, j + 1) = 45 THEN Uns                    \* any other two adjacent unescaped hyphens
   ELSE IF c = 45 /\ ~(items = <<>> \/ At(p, j + 1) = 93) THEN Uns \* hyphen neither first nor last
   ELSE LET a == IF c = 45 THEN [v |-> "chr", c |-> 45, i |-> j + 1] ELSE PSingle(p, j, st, X) IN
        IF a.v = "syn" THEN Syn
        ELSE IF a.v = "item" THEN PItems(p, a.i, st, X, Append(items, a.it), neg)
        ELSE \* a single character; does a range follow?
-            IF At(p, a.i) = 45 /\ At(p, a.i + 1) \notin {93, 91, -1}
+            IF At(p, a.i) = 45 /\ At(p, a.i + 1) = 45 /\ At(p, a.i + 2) = 91 /\ c # 45
+            THEN PItems(p, a.i, st, X, Append(items, [t |-> "c", c |-> a.c]), neg)   \* 'a--[' : handled by the '--[' case
+            ELSE IF At(p, a.i) = 45 /\ At(p, a.i + 1) \notin {93, 91, -1}
             THEN IF At(p, a.i + 1) = 45 \/ c = 45 THEN Uns          \* 'a--', or a range starting at a literal first hyphen
                  ELSE LET b == PSingle(p, a.i + 1, st, X) IN
                       IF b.v # "chr" THEN Syn                     \* class escape or '[' after '-'
